@@ -141,7 +141,11 @@ where
                     if eval_config.is_cancelled() {
                         Err(())
                     } else {
+                        #[cfg(feature = "verif-hooks")]
+                        verif_tile(tile, true);
                         let pixels = worker.render_tile(&mut rh, tile);
+                        #[cfg(feature = "verif-hooks")]
+                        verif_tile(tile, false);
                         Ok((tile, pixels))
                     }
                 })
@@ -156,7 +160,11 @@ where
                     if eval_config.is_cancelled() {
                         Err(())
                     } else {
+                        #[cfg(feature = "verif-hooks")]
+                        verif_tile(tile, true);
                         let pixels = w.render_tile(rh, tile);
+                        #[cfg(feature = "verif-hooks")]
+                        verif_tile(tile, false);
                         Ok((tile, pixels))
                     }
                 })
@@ -164,6 +172,18 @@ where
                 .ok()
         }),
     }
+}
+
+/// Reports the start / end of a root tile to the monitor hook
+#[cfg(feature = "verif-hooks")]
+fn verif_tile(tile: Tile<2>, start: bool) {
+    use fidget_core::render::verif::{SchedPoint, fire};
+    let (x, y) = (tile.corner.x, tile.corner.y);
+    fire(if start {
+        SchedPoint::RasterTileStart { x, y }
+    } else {
+        SchedPoint::RasterTileEnd { x, y }
+    });
 }
 
 /// Helper trait for tiled rendering configuration
